@@ -31,6 +31,9 @@ MANIFEST = {
                   "the entry is mp4a{esds} with the whole descriptor tree TYPED, it prints and parses back in the box model, and the "
                   "DecConfig bytes inside its DecSpecificInfo are what C18's AudioSpecificConfig encoder writes for, and C18's decoder "
                   "reads back as, the configuration supplied (object type, frequency, channels, extension frequency, SBR/PS); "
+                  "C19_decoded_init_aac: over whole histories (AAC frequencies < 2^23) every esds entry of the final state is the entry of "
+                  "some SetAACDescriptor(o, f) call, its typed box occurs inside the tree C01's decoder returns for the encoded init, and "
+                  "C18's decoder reads its DecSpecificInfo bytes back as that call's configuration; "
                   "C19_box_roundtrip_esds for any configuration of <= 100 bytes; elng "
                   "round trip with the exact two-byte boundary. Codec configuration at byte level, ALL profile values: avc.DecConfRec "
                   "and hevc.DecConfRec write exactly Size() bytes (C19_avcrec_size, C19_hvcrec_size, every record) and decode after "
@@ -257,7 +260,7 @@ def run(ctx):
                        "distinct = distinct case lines. search: independent oracle on in-scope "
                        "histories: ids/trex/next id/contiguity, handler+media header table, language rule, data reference index, trak tree shape, "
                        "descriptor contents vs supplied (dimensions, every avcC/hvcC field and the codec string vs the field values the SPS was generated from, "
-                       "parameter sets byte for byte, ASC decoded back; on the built AND on the decoded init), Encode = EncodeSW, encode -> DecodeFile / DecodeFileSR -> equal "
+                       "parameter sets byte for byte, ASC decoded back + the esds tree values; on the built AND on the decoded init), Encode = EncodeSW, encode -> DecodeFile / DecodeFileSR -> equal "
                        "Info dump + equal re-encoding + IsFragmented; for EVERY track of every init: trex of the decoded init = (id, 1, 0, 0, 0), a fragment "
                        "CreateFragment(seq, id) with a generated add-history (1-5 samples, uniform runs that OptimizeTfhdTrun folds into tfhd defaults "
                        "and non-uniform ones, AddFullSample / AddFullSampleToTrack incl. refused foreign ids / AddSample + AddSampleToTrack / "
